@@ -1125,6 +1125,15 @@ func (e *Encoder) instr(in ssa.Instruction, st *State, pc string) {
 	case *ssa.Send:
 		e.havocAll(st, "channel send")
 	case *ssa.Select:
+		if e.fc != nil && len(e.fc.Sites) > 0 {
+			// site select#k: the k-th select statement in source order; waitson(ch) says that one of its cases
+			// receives from (or sends on) the channel ch
+			extra := map[string]Val{}
+			for i, s := range in.States {
+				extra[fmt.Sprintf("chan%d", i)] = e.val(s.Chan)
+			}
+			e.runSites(fmt.Sprintf("select#%d", e.ordinal("site select")), st, pc, extra)
+		}
 		e.havocAll(st, "select")
 		v := e.freshVal("sel", in.Type())
 		e.vals[in] = v
